@@ -7,7 +7,7 @@ from ..meshgen import INITIAL_GRIDS, Batch, random_op, op_json
 from ..meshlib import PyMesh, oracle_mesh
 from .. import refmesh
 
-PROP_MODS = ['Stbem.Props.C19']
+PROP_MODS = ['Stbem.Props.C19', 'Stbem.Props.C19Dyadic']
 RULE = ('random bisection histories (bias 0.2/0.5/0.8) from the shipped-curve-like initial meshes, then '
         'refine_grading(sigma, K=4) with sigma in {1, 1.5, 2}: model and code compared leaf by leaf after the call; '
         'search: the real call must return (wall-clock fuse), only refine, leave every leaf in the window '
